@@ -255,6 +255,14 @@ fn process_request_obj(request: &Request, dbs: &Arc<Databases>, client: &mut Cli
                             let mut user_name_state = client.selected_db.user_name.write().unwrap();
 
                             if is_valid_user_token(&token, &user_name, db) {
+                                // The session no longer counts as connected to the database it
+                                // had selected before (also when it selects the same one again)
+                                if let Some(previous_db) =
+                                    db_name_state.as_ref().and_then(|p| dbs_map.get(p))
+                                {
+                                    previous_db.dec_connections();
+                                    set_connection_counter(previous_db, &dbs);
+                                }
                                 let _ = std::mem::replace(&mut *db_name_state, Some(name.clone()));
                                 let _ = std::mem::replace(
                                     &mut *user_name_state,
@@ -272,6 +280,14 @@ fn process_request_obj(request: &Request, dbs: &Arc<Databases>, client: &mut Cli
                         None => {
                             if is_valid_token(&token, db) {
                                 let mut db_name_state = client.selected_db.name.write().unwrap();
+                                // The session no longer counts as connected to the database it
+                                // had selected before (also when it selects the same one again)
+                                if let Some(previous_db) =
+                                    db_name_state.as_ref().and_then(|p| dbs_map.get(p))
+                                {
+                                    previous_db.dec_connections();
+                                    set_connection_counter(previous_db, &dbs);
+                                }
                                 let _ = std::mem::replace(&mut *db_name_state, Some(name.clone()));
                                 db.inc_connections(); //Increment the number of connections
                                 set_connection_counter(db, &dbs);
